@@ -1,4 +1,5 @@
 import Dawn.Proofs.LoaderWalk
+import Dawn.Proofs.LoaderCond
 /-!
 Deadlock freedom of the fixed loader: in a reachable state in which some goroutine has not returned, some goroutine can
 take a step. Otherwise every unfinished goroutine is asleep on an unfinished module, which sits in the stack of another
@@ -77,7 +78,7 @@ theorem iterF_add (f : Nat → Nat) (a : Nat) (i k : Nat) : iterF f a (i + k) = 
 def Sleeping (s : State) (t : Tid) : Prop := ∃ d, s.pc t = .sleep d ∧ s.loaded d = false
 
 /-- in the fixed version a goroutine that cannot move has returned or is asleep on an unfinished module -/
-theorem stuck_thread {P : Project} {s : State} (lf : LockFree s) (inv1 : Inv1 P s) {t : Tid}
+theorem stuck_thread {P : Project} {s : State} (lf : LockFree s) (inv1 : Inv1 P s) (invA : InvA s) {t : Tid}
     (h : next .fixed P s t = none) : s.pc t = .finished ∨ Sleeping s t := by
   obtain ⟨hm, hc⟩ := lf
   have hb := inv1.body t
@@ -85,10 +86,13 @@ theorem stuck_thread {P : Project} {s : State} (lf : LockFree s) (inv1 : Inv1 P 
   | finished => exact Or.inl rfl
   | sleep d =>
     refine Or.inr ⟨d, hpc, ?_⟩
-    simp only [next, hpc, hm, Option.isNone_none, Bool.and_true] at h
-    cases hl : s.loaded d with
-    | false => rfl
-    | true => simp [hl] at h
+    -- blocked in Wait means: still on the notify list — and nobody is on the list of a loaded module
+    simp only [next, hpc, hm, Option.isSome_none, Bool.or_false] at h
+    by_cases hin : t ∈ s.asleep d
+    · exact (invA.listed d t hin).2
+    · have : (s.asleep d).contains t = false := by simpa using hin
+      simp only [this, Bool.false_eq_true, ↓reduceIte] at h
+      split at h <;> cases h
   | check d => exact absurd hpc (hc t d)
   | run =>
     have := hb (Or.inl hpc)
@@ -172,7 +176,7 @@ theorem no_stuck {P : Project} {s : State} (hr : Reachable .fixed P s) (hstuck :
   have i2 := inv2_reachable hr
   have i3 := inv3_reachable hr
   have i6 := inv6_reachable hr
-  have hS : ∀ t, s.pc t = .finished ∨ Sleeping s t := fun t => stuck_thread lf i1 (hstuck t)
+  have hS : ∀ t, s.pc t = .finished ∨ Sleeping s t := fun t => stuck_thread lf i1 (invA_reachable hr) (hstuck t)
   -- a sleeping goroutine waits for a module in the stack of another sleeping goroutine
   have hsucc : ∀ t, Sleeping s t → ∃ t', Sleeping s t' ∧ ∃ d f, s.pc t = .sleep d ∧ f ∈ s.stack t' ∧ f.mod = d := by
     intro t ⟨d, hpc, hl⟩
